@@ -14,7 +14,7 @@ TICK_EVERY = 5      # every 5th case of every unit is repeated with numpy intege
 RULE = ("ALL words of relative messages up to the length bound over the symbol alphabet (note-on/off x channels x "
         "pitches, wait 1/2, two time signatures, two key signatures), ill-formed ones included; distinct = distinct "
         "words; non-trivial = the word contains a re-trigger, orphan, unclosed note, nesting or a repeated signature")
-SCALE = ('words of hundreds of messages from a long piece with injected re-triggers / orphans / restated signatures; one (channel, pitch) struck 1..12 times before any release (released k-1, k, k+1 times); chords of 1..12 notes played, released, struck again and never released; ladder 33..1025 notes under a pedal note, trailing rest of 70001 ticks')
+SCALE = ('words of hundreds of messages from a long piece with injected re-triggers / orphans / restated signatures; one (channel, pitch) struck 1..12 times before any release (released k-1, k, k+1 times); chords of 1..12 notes played, released, struck again and never released; ladder 33..1025 notes under a pedal note, trailing rest of 70001 ticks; controllers (64, 120, 123) in the word alphabet; EVERY pair of pitches 0..127 sounding together on neighbouring channels (3 channel pairs, overlapping and nested); numpy integer waits every 5th case')
 ASSUMPTIONS = ["fragmentation of rests into wait messages and the velocity a fused note keeps are not demanded"]
 REQUIRED_FLAGS = ["after_history", "aliased_messages_inside_sequence", "retrigger", "orphan_off", "unclosed_on", "nested", "repeated_signature", "balanced_word_roll_compared",
                   "pitch_equals_channel_number", "trailing_wait", "controller_message"]
